@@ -548,6 +548,11 @@ static int replay_file(const std::string& path)
 int main(int argc, char** argv)
 {
   g_self = argv[0];
+  if (argc > 1 && std::string(argv[1]) == "--list-fixed")
+  {
+    for (auto& fc : fixed_cases()) printf("%s\n", fc.name.c_str());
+    return 0;
+  }
   if (argc > 1 && std::string(argv[1]) == "--aux")
   {
     ys_initialize();
